@@ -13,6 +13,7 @@
 //	{"op":"client","status":int,"lines":[{"kind":"msg"|"done"|"error"|"garbage","len":n,"nl":bool}...],
 //	 "cut":{"lines":k,"extra":m,"framing":"chunked"|"length"}}   (cut: transport fault, see doClient)
 //	   -> {"got":[{"done":bool,"len":n}...],"cerr":text}      (the real api.Client against scripted response lines)
+//	{"op":"llm",...}   the REAL llm client (llmServer.Completion) against a scripted fake runner, alone or under the real handlers (see doLLM)
 package main
 
 import (
@@ -49,6 +50,10 @@ type script struct {
 	pc, ec  int
 	errMsg  string
 	tokfail bool
+	// off-contract continuation after the final response (only to tie the handler model on arbitrary callback traces):
+	// more callbacks and/or an error return although the final response was delivered
+	after    []llm.CompletionResponse
+	afterErr string
 }
 
 type mock struct {
@@ -115,6 +120,12 @@ func (m *mock) Completion(ctx context.Context, req llm.CompletionRequest, fn fun
 	case "done":
 		fn(llm.CompletionResponse{Content: sc.content, Done: true, DoneReason: llm.DoneReason(sc.reason),
 			PromptEvalCount: sc.pc, PromptEvalDuration: 7, EvalCount: sc.ec, EvalDuration: 9})
+		for _, a := range sc.after {
+			fn(a)
+		}
+		if sc.afterErr != "" {
+			return errors.New(sc.afterErr)
+		}
 		return nil
 	case "error":
 		return errors.New(sc.errMsg)
@@ -479,6 +490,20 @@ func doRun(c map[string]any) any {
 		for _, ch := range sp.([]any) {
 			sc.chunks = append(sc.chunks, chunkOf(ch))
 		}
+		if af, ok := end["after"].([]any); ok {
+			for _, a := range af {
+				am := a.(map[string]any)
+				if d, _ := am["done"].(bool); d {
+					sc.after = append(sc.after, llm.CompletionResponse{Content: hx.Unhex(am["content"]), Done: true, DoneReason: llm.DoneReason(hx.Int(am["reason"])),
+						PromptEvalCount: hx.Int(am["pc"]), PromptEvalDuration: 7, EvalCount: hx.Int(am["ec"]), EvalDuration: 9})
+				} else {
+					sc.after = append(sc.after, llm.CompletionResponse{Content: hx.Unhex(am["content"])})
+				}
+			}
+		}
+		if ae, ok := end["after_err"].(string); ok {
+			sc.afterErr = hx.Unhex(ae)
+		}
 		for _, mode := range modes {
 			mk.set(sc)
 			o := runObs{Split: si, Mode: mode, Recs: []rec{}}
@@ -737,8 +762,156 @@ func doClient(c map[string]any) any {
 	return out
 }
 
+// ---------------------------------------------------------------- the real llm client against a fake runner
+
+// realRunner delegates Completion to the REAL llmServer and records what it did (callbacks, return value); everything a
+// tokenizer is needed for goes to the mock (the real one needs a loaded model).
+type realRunner struct {
+	llm.LlamaServer
+	mu     sync.Mutex
+	inner  llm.LlamaServer
+	events []map[string]any
+	hasErr bool
+	errMsg string
+	calls  int
+	prompt string
+}
+
+func (r *realRunner) Completion(ctx context.Context, req llm.CompletionRequest, fn func(llm.CompletionResponse)) error {
+	r.mu.Lock()
+	r.prompt = req.Prompt
+	r.mu.Unlock()
+	err := r.inner.Completion(ctx, req, func(cr llm.CompletionResponse) {
+		r.mu.Lock()
+		r.events = append(r.events, map[string]any{"content": hx.Hex(cr.Content), "done": cr.Done, "reason": int(cr.DoneReason),
+			"pc": cr.PromptEvalCount, "ec": cr.EvalCount, "pd": int64(cr.PromptEvalDuration), "ed": int64(cr.EvalDuration)})
+		r.mu.Unlock()
+		fn(cr)
+	})
+	r.mu.Lock()
+	r.calls++
+	if err != nil {
+		r.hasErr, r.errMsg = true, err.Error()
+	}
+	r.mu.Unlock()
+	return err
+}
+func (r *realRunner) Tokenize(ctx context.Context, s string) ([]int, error) { return mk.Tokenize(ctx, s) }
+func (r *realRunner) Detokenize(ctx context.Context, t []int) (string, error) {
+	return mk.Detokenize(ctx, t)
+}
+
+var (
+	rr       = &realRunner{}
+	realBase string
+)
+
+// {"op":"llm","status":200,"lines":[{"kind":"content","content":hex}|{"kind":"done","content":hex,"reason":r,"pc":n,"ec":n}|
+//  {"kind":"garbage"}|{"kind":"blank"}],"send":k,"extra":m,"ending":"clean"|"cut","e2e":""|"generate"|"chat","stream":bool}
+// The fake runner answers /health with "ready" and /completion with the first k lines, m bytes of line k, and then either
+// the proper end of the chunked body ("clean") or a closed connection ("cut").  status != 200: the body is an error text.
+// -> {"events":[...],"haserr":bool,"err":text, "run": {...} (e2e only)}
+func doLLM(c map[string]any) any {
+	status := hx.Int(c["status"])
+	if status == 0 {
+		status = 200
+	}
+	var all []string
+	lines, _ := c["lines"].([]any)
+	for _, l := range lines {
+		lm := l.(map[string]any)
+		switch lm["kind"].(string) {
+		case "content":
+			b, _ := json.Marshal(map[string]any{"content": hx.Unhex(lm["content"])})
+			all = append(all, string(b))
+		case "done":
+			b, _ := json.Marshal(llm.CompletionResponse{Content: hx.Unhex(lm["content"]), Done: true, DoneReason: llm.DoneReason(hx.Int(lm["reason"])),
+				PromptEvalCount: hx.Int(lm["pc"]), PromptEvalDuration: 7, EvalCount: hx.Int(lm["ec"]), EvalDuration: 9})
+			all = append(all, string(b))
+		case "blank":
+			all = append(all, "")
+		default:
+			all = append(all, `{"content":`)
+		}
+	}
+	k, m := hx.Int(c["send"]), hx.Int(c["extra"])
+	ending, _ := c["ending"].(string)
+	runner := httptest.NewServer(http.HandlerFunc(func(w http.ResponseWriter, r *http.Request) {
+		if r.URL.Path == "/health" {
+			json.NewEncoder(w).Encode(llm.ServerStatusResponse{Status: llm.ServerStatusReady, Progress: 1})
+			return
+		}
+		io.Copy(io.Discard, r.Body)
+		if status != 200 {
+			w.WriteHeader(status)
+			w.Write([]byte("runner failed: " + http.StatusText(status)))
+			return
+		}
+		var parts []string
+		for i := 0; i < k && i < len(all); i++ {
+			parts = append(parts, all[i]+"\n")
+		}
+		if k < len(all) && m != 0 {
+			if m < 0 || m > len(all[k]) {
+				m = len(all[k])
+			}
+			parts = append(parts, all[k][:m])
+		}
+		conn, bufrw, err := w.(http.Hijacker).Hijack()
+		if err != nil {
+			panic(err)
+		}
+		defer conn.Close()
+		bufrw.WriteString("HTTP/1.1 200 OK\r\nContent-Type: application/json\r\nTransfer-Encoding: chunked\r\n\r\n")
+		for _, p := range parts {
+			fmt.Fprintf(bufrw, "%x\r\n%s\r\n", len(p), p)
+		}
+		if ending != "cut" {
+			bufrw.WriteString("0\r\n\r\n")
+		}
+		bufrw.Flush()
+	}))
+	defer runner.Close()
+	u, _ := url.Parse(runner.URL)
+	port := 0
+	fmt.Sscanf(u.Port(), "%d", &port)
+	real, err := llm.VerifC17NewServer(port)
+	if err != nil {
+		panic(err)
+	}
+	defer real.Close()
+	rr.mu.Lock()
+	rr.inner, rr.events, rr.hasErr, rr.errMsg, rr.calls = real, []map[string]any{}, false, "", 0
+	rr.mu.Unlock()
+	out := map[string]any{}
+	e2e, _ := c["e2e"].(string)
+	if e2e == "" {
+		rr.Completion(context.Background(), llm.CompletionRequest{Prompt: "p"}, func(llm.CompletionResponse) {})
+	} else {
+		stream, _ := c["stream"].(bool)
+		mk.set(script{})
+		o := runObs{Mode: map[bool]string{true: "st", false: "ns"}[stream], Recs: []rec{}}
+		save := base
+		base = realBase
+		oneRun(&o, e2e, "plain", false, "", false, false, "hi", o.Mode)
+		base = save
+		out["run"] = o
+	}
+	rr.mu.Lock()
+	out["events"], out["haserr"], out["err"], out["calls"], out["prompt"] = rr.events, rr.hasErr, rr.errMsg, rr.calls, hx.Hex(rr.prompt)
+	rr.mu.Unlock()
+	return out
+}
+
 func main() {
 	setup()
+	{
+		h, _, err := server.VerifC17Handler(rr)
+		if err != nil {
+			panic(err)
+		}
+		realBase = httptest.NewServer(h).URL
+	}
 	// like hx.Loop, but every reply is flushed at once so that the check can converse with one process
 	// (shrinking re-runs cases without paying the set-up again)
 	sc := bufio.NewScanner(os.Stdin)
@@ -764,6 +937,8 @@ func main() {
 				return doParse(c)
 			case "client":
 				return doClient(c)
+			case "llm":
+				return doLLM(c)
 			}
 			return map[string]any{"harness_error": "unknown op"}
 		}))
